@@ -301,7 +301,7 @@ func genE2ECase(kinds []string) *rapid.Generator[e2eCase] {
 func TestPropE2ECut(t *testing.T) {
 	base := goroutineBaseline()
 	defer failIfInconclusive(t)
-	vstat.Checks(90, 2500)
+	checks(90, 2500)
 	rapid.Check(t, func(rt *rapid.T) {
 		skipIfInconclusive(rt)
 		runE2ECase(rt, genE2ECase([]string{"up", "up", "down", "down", "race", "burst", "halfopen", "fault", "fault"}).Draw(rt, "case"))
@@ -312,7 +312,7 @@ func TestPropE2ECut(t *testing.T) {
 func TestPropE2ERestart(t *testing.T) {
 	base := goroutineBaseline()
 	defer failIfInconclusive(t)
-	vstat.Checks(90, 2500)
+	checks(90, 2500)
 	rapid.Check(t, func(rt *rapid.T) {
 		skipIfInconclusive(rt)
 		runE2ECase(rt, genE2ECase([]string{"up", "restart", "restart", "down", "race", "halfopen", "fault"}).Draw(rt, "case"))
@@ -666,9 +666,9 @@ func runE2ECase(t fataler, c e2eCase) {
 				fw.restore()
 			}
 			// (a standby answered with an HTML page for its stream reports connected for the instant it takes to read
-			// the page to its end: "connected" counts once no stream fault is left to be served; a bounce after that
+			// the page to its end: "connected" counts while the last stream request was relayed to the real handler; a bounce after that
 			// is handled by quiesce, which accepts only a sentinel that came through a stable stream)
-			if !pollUntil(func() bool { return sb.Stats().Connected && plan.pendingStream() == 0 }) {
+			if !pollUntil(func() bool { return sb.Stats().Connected && plan.streamGenuine() }) {
 				inconclusive("standby did not report connected within %v of the faulty reconnect (last error %q)", waitTimeout, sb.Stats().LastError)
 				break
 			}
